@@ -78,7 +78,7 @@ func (d *UintListDecoder) Decode(b []byte) []uint32 {
 }
 
 func (d *UintListDecoder) readUint32(r io.Reader) (uint32, error) {
-	n, err := r.Read(d.buf)
+	n, err := io.ReadFull(r, d.buf)
 	if err != nil {
 		return 0, err
 	}
